@@ -11,6 +11,16 @@
 //! advances the clock to the deadline and the waiter must time out.
 
 use crate::harness::{self, violation};
+
+/// The same harness body decides C12 (its own catalogue) and the concurrent part of C11 (`catalogue_c11`):
+/// violation keys carry the property they were found under.
+static FOR_C11: std::sync::atomic::AtomicBool = std::sync::atomic::AtomicBool::new(false);
+pub fn set_for_c11() {
+    FOR_C11.store(true, std::sync::atomic::Ordering::SeqCst);
+}
+fn key(k: &str) -> String {
+    if FOR_C11.load(std::sync::atomic::Ordering::SeqCst) { format!("C11:concurrent:{k}") } else { format!("C12:{k}") }
+}
 use repe::verif_loom::clock;
 use repe::verif_loom::std_shadow::time::Instant as VInstant;
 use repe::{
@@ -378,7 +388,7 @@ pub fn body(spec: &Spec) {
     });
     if n_consistent == 0 {
         violation(
-            "C12:signaller-effects",
+            &key("signaller-effects"),
             format!(
                 "no sequential order of the signalling operations explains what was observed: results {obs_results:?}, final {obs:?}"
             ),
@@ -441,7 +451,7 @@ pub fn body(spec: &Spec) {
     });
     if !legal {
         violation(
-            "C12:illegal-wait-result",
+            &key("illegal-wait-result"),
             format!(
                 "waiter {waiter:?} returned {result:?} at virtual t={}s; signallers {:?} (results {obs_results:?}), final offsets ({sent},{acked}), cancel {:?}: no order of the signalling operations makes that the result of a wait",
                 ret_clock / SEC, spec.threads, obs.reason
@@ -450,7 +460,7 @@ pub fn body(spec: &Spec) {
     }
     if result == WResult::Timeout && ret_clock < deadline {
         violation(
-            "C12:early-timeout",
+            &key("early-timeout"),
             format!("Timeout returned at virtual t={ret_clock}ns, before the deadline {deadline}ns"),
         );
     }
@@ -612,6 +622,46 @@ pub fn catalogue(thorough: bool) -> Vec<Spec> {
         });
     }
     // every Resume installs a peer id fixed by its position (thread, index)
+    for spec in &mut out {
+        for (t, script) in spec.threads.iter_mut().enumerate() {
+            for (i, op) in script.iter_mut().enumerate() {
+                if let Op::Resume(_, _, id) = op {
+                    *id = 10 * (t as u64 + 1) + i as u64;
+                }
+            }
+        }
+    }
+    out
+}
+
+
+/// C11, concurrent part: "cancellation is permanent and its first reason wins: every pending or later credit
+/// or reconnect wait reports it" when the cancels (and the acks / resumes that race them) come from different
+/// threads. Same body and oracle as C12: the waiter's result and the reason read after every thread finished
+/// must be explained by ONE sequential order of the operations, so a reason that changes after it was
+/// reported (or a later cancel overwriting an earlier one) has no explanation.
+pub fn catalogue_c11(thorough: bool) -> Vec<Spec> {
+    let mut out = Vec::new();
+    let cw = Waiter::Credit { c: 2, timeout_s: FAR };
+    let rw = Waiter::Reconnect { timeout_s: FAR };
+    let ow = Waiter::Credit { c: 6, timeout_s: FAR };
+    let x = || vec![Op::Cancel("x")];
+    let y = || vec![Op::Cancel("y")];
+    for (kind, w) in [("credit", cw), ("reconnect", rw), ("oversized", ow)] {
+        let mut push = |name: &str, threads: Vec<Vec<Op>>| out.push(Spec { name: format!("c11/{kind}/{name}"), waiter: w, threads, main_tick: true });
+        push("cancelx|cancely", vec![x(), y()]);
+        push("cancelx+cancelz|cancely", vec![vec![Op::Cancel("x"), Op::Cancel("z")], y()]);
+        push("cancelx|cancely+ackall", vec![x(), vec![Op::Cancel("y"), Op::Ack(0, 4)]]);
+        push("cancelx|ackall+cancely", vec![x(), vec![Op::Ack(0, 4), Op::Cancel("y")]]);
+        push("cancelx|resume2+cancely", vec![x(), vec![Op::Resume(0, 2, 0), Op::Cancel("y")]]);
+        push("cancelx|cancely+resume2", vec![x(), vec![Op::Cancel("y"), Op::Resume(0, 2, 0)]]);
+        push("cancelx|cancely|ackfit", vec![x(), y(), vec![Op::Ack(0, 2)]]);
+        if thorough {
+            push("cancelx|cancely|cancelz", vec![x(), y(), vec![Op::Cancel("z")]]);
+            push("cancelx|cancely|advance", vec![x(), y(), vec![Op::Advance(1)]]);
+            push("cancelx|cancely|resume2", vec![x(), y(), vec![Op::Resume(0, 2, 0)]]);
+        }
+    }
     for spec in &mut out {
         for (t, script) in spec.threads.iter_mut().enumerate() {
             for (i, op) in script.iter_mut().enumerate() {
